@@ -8,12 +8,12 @@ INC="-I$REPO -I$MC"
 # and is compiled by the other compiler at -O2 (argument evaluation order, folding and inlining differ between the two)
 for san in address thread; do
   d=$BUILD/$san; mkdir -p $d
-  if [ $san = thread ]; then CXX="g++ -std=c++17 -O1 -DNDEBUG"; else CXX="clang++ -std=c++17 -O2"; fi
+  if [ $san = thread ]; then CXX="g++ -std=c++20 -O1 -DNDEBUG"; else CXX="clang++ -std=c++20 -O2"; fi
   for f in $SRC; do par $CXX -g -fsanitize=$san -fno-omit-frame-pointer $INC -c $f -o $d/$(basename $f .cpp).o; done
   par $CXX -g -fsanitize=$san -fno-omit-frame-pointer $INC -c $VERIF/harness/c20/c20_sync.cpp -o $d/h.o
 done
-par g++ -std=c++17 -O2 -g $INC -c $MC/sched/sched.cpp -o $BUILD/sched.o
-par g++ -std=c++17 -O2 $INC -c $MC/mc.cpp -o $BUILD/mc.o
+par g++ -std=c++20 -O2 -g $INC -c $MC/sched/sched.cpp -o $BUILD/sched.o
+par g++ -std=c++20 -O2 $INC -c $MC/mc.cpp -o $BUILD/mc.o
 par gcc -O1 -I$REPO -c $REPO/igris/dprint/dprint_func_impl.c -o $BUILD/dprint.o
 par gcc -O1 -I$REPO -c $REPO/igris/dprint/dprint_stub.c -o $BUILD/dstub.o
 parwait
